@@ -92,5 +92,16 @@ Definition history_ok (calls : list (acall Qc)) (obs : list (option (list Qspace
   results_ok (q_history calls) obs.
 Definition acall_of (d : list Qspace) (specs : list spec) (keep : bool) (f : fval Qc) : acall Qc := (d, (specs, (keep, f))).
 
+Definition q_ohistory := operator_history Qc 0%Qc Qcmult.
+Fixpoint lists_ok (ms obs : list (list Qc)) : bool :=
+  match ms, obs with
+  | [], [] => true
+  | m :: ms', o :: obs' => eq_list m o && lists_ok ms' obs'
+  | _, _ => false
+  end.
+Definition ohistory_ok (calls : list (ocall Qc)) (obs : list (list Qc)) : bool := lists_ok (q_ohistory calls) obs.
+Definition ocall_of (d : list Qspace) (idx : nat) (pindex : list nat) (nbin : nat) (p x : list Q) : ocall Qc :=
+  (d, (idx, (pindex, (nbin, (qcs p, qcs x))))).
+
 Definition fre (l : list Q) : fval Qc := FReal (qcs l).
 Definition fcx (re im : list Q) : fval Qc := FCplx (qcs re) (qcs im).
